@@ -288,7 +288,8 @@ class Library:
         st = self.st
         if sym.is_byteslike(v):
             r = st.to_rope(v)
-            return st.mk_bytes(r.segs, f is bytearray)
+            out = st.mk_bytes(r.segs, f is bytearray)
+            return st.allocated(out) if f is bytearray else out      # a new object: in-place changes to it touch nobody else
         if sym.is_symbolic(v):
             raise OutOfSubset('%s() of %s' % (f.__name__, type(v).__name__))
         try:
@@ -882,6 +883,7 @@ class Library:
             raise OutOfSubset('fromtimestamp of %s' % type(ts).__name__)
         key = millis if millis is not None else I(ts)
         st.assume(z3.Implies(z3.And(key >= 0, key <= 253402300799), wire.dt_representable(key)))
+        st.assume(z3.Implies(key > 253402300799999, z3.Not(wire.dt_representable(key))))
         if not st.branch(wire.dt_representable(key), 'fromtimestamp:representable'):
             if st.branch(st.fresh_bool('overflow_error'), 'fromtimestamp:OverflowError-or-ValueError'):
                 raise Raised(OverflowError, ('timestamp out of range for platform time_t',))
@@ -973,6 +975,13 @@ class Library:
             return r
         if name == 'astimezone' and not args:
             return SOpaque('datetime_local', obj.t)      # same instant, host time zone attached
+        if name == 'astimezone' and len(args) == 1 and not kwargs and isinstance(args[0], datetime.tzinfo):
+            # aware: the same instant in another zone; naive: the wall-clock fields are read in the HOST zone first
+            r = SOpaque('datetime_aware', st.fresh('astimezone', wire.Obj))
+            st.assume(wire.dt_seconds(r.t) == (s - LOCAL_OFFSET(s) if naive else s))
+            if args[0] is datetime.timezone.utc:
+                st.assume(wire.dt_utcoffset(r.t) == 0)
+            return r
         raise OutOfSubset('datetime.%s' % name)
 
 
